@@ -1,0 +1,53 @@
+//go:build verif
+
+// Contracts for govc (see /verif/DESIGN.md). Comment-only file: no executable code.
+
+package iiss
+
+// ---------------------------------------------------------------------------
+// C34: staking operations (ghosts: icstate/zz_contracts_verif.go)
+// ---------------------------------------------------------------------------
+//@ property C34
+
+// when the lock period ends, the owner of each expiring unstake is paid exactly what RemoveUnstake
+// took out of that owner's account for this height
+//@ func (es *ExtensionStateImpl) handleUnstakingTimer(wc, ts, h) (err)
+//@   arith int
+//@   nosafety
+//@   modifies *
+//@   opt no-callee-pre
+//@   opt inline-none
+//@   requires es != nil
+//@   callpre RemoveUnstake: height == h && a == ghost(acct_q)
+//@   callpre Deposit: address == ghost(acct_q_addr) && ghost(removed_from) == ghost(acct_q) && big(amount) == big(ghost(removed_amount)) && amount == ghost(removed_amount)
+//@   loop 0: invariant true
+
+// a delegation (bond) change reaches the network total only for P-Reps that are active - decided by
+// IsActive of that very P-Rep status
+//@ func (es *ExtensionStateImpl) SetDelegation(cc, ds) (err)
+//@   arith int
+//@   nosafety
+//@   modifies *
+//@   opt no-callee-pre
+//@   opt inline-none
+//@   requires es != nil
+//@   callpre Int.Add#3: z == nTotal && ghost(active_q) == ps && ghost(active_res) && y == value
+//@   loop 0: invariant true
+// SetBond succeeds only if the stake covers bond + delegation + unbond as they are after the new
+// bonds and the unbonds they cause have been applied (the check is made after UpdateUnbonds)
+//@ func (es *ExtensionStateImpl) AddEventBond(blockHeight, from, delta) (err)
+//@   trusted
+//@   modifies *
+//@ func (es *ExtensionStateImpl) SetBond(cc, bonds) (err)
+//@   arith int
+//@   nosafety
+//@   modifies *
+//@   opt no-callee-pre
+//@   opt inline-none
+//@   opt protect-local account.stake, big(account.stake)
+//@   requires es != nil
+//@   callpre AddEventBond: ghost(using_ver) == ghost(acct_ver) && big(account.stake) >= ghost(using_val)
+//@   callpre Int.Add#3: z == nTotal && ghost(active_q) == ps && ghost(active_res) && y == value
+//@   loop 0: invariant true
+//@   loop 1: invariant true
+//@   loop 2: invariant true
